@@ -1034,6 +1034,22 @@ public:
     virtual void
     reset();
 
+#if defined(APACHE_XALAN_C_VERIF)
+    // Verification hook:  sizes of the internal stacks, which must be back
+    // to their idle values between transformations.
+    void
+    verifSnapshot(XalanVector<XalanSize_t>&     theSizes) const
+    {
+        theSizes.push_back(m_topLevelParams.size());
+        theSizes.push_back(m_stylesheetLocatorStack.size());
+        theSizes.push_back(m_cdataStack.size());
+        theSizes.push_back(m_outputContextStack.size());
+        theSizes.push_back(m_resultNamespacesStack.size());
+        theSizes.push_back(m_attributeNamesVisited.size());
+        theSizes.push_back(m_hasCDATASectionElements == true ? 1 : 0);
+    }
+#endif
+
     /**
      * Retrieve the XPath environment support object
      *
